@@ -28,12 +28,25 @@ func init() {
 			for which := 0; which <= 1; which++ {
 				cs = append(cs, driver.Case{Harness: "verifH_c05_addlemma", Pkg: "internal/sm2ec", Config: "asm", Params: P("which", which), Overrides: ov, MaxUnwind: 3000, TimeoutS: 1200, Portfolio: true})
 			}
+			// the math/big wrapper sm2/sm2ec/sm2ec.go over the abstract group (purego configuration)
+			wov := sm2Overrides()
+			wov[driver.Module+"/internal/sm2ec.init#1"] = "verifModel_noinit"
+			for _, z := range [][2]int{{0, 0}, {32, 0}, {0, 32}, {1, 0}, {32, 32}} {
+				c := driver.Case{Harness: "verifH_c05_wrap_point", Pkg: "sm2/sm2ec", Config: "purego", Params: P("xz", z[0], "yz", z[1]), Overrides: wov, MaxUnwind: 3000, TimeoutS: 900, Solver: "cvc5", Portfolio: true}
+				if z[0] < 32 || z[1] < 32 {
+					c.MustReach = []string{"oncurve"}
+				}
+				cs = append(cs, c)
+			}
+			for _, n := range []int{1, 31, 32, 33, 40} {
+				cs = append(cs, driver.Case{Harness: "verifH_c05_wrap_scalar", Pkg: "sm2/sm2ec", Config: "purego", Params: P("n", n), Overrides: wov, MaxUnwind: 3000, TimeoutS: 900, Solver: "cvc5", Portfolio: true})
+			}
 			return cs
 		},
-		Functions:   []string{"internal/sm2ec.boothW5, boothW6", "(*SM2P256Point).ScalarBaseMult, p256BaseMult", "(*SM2P256Point).ScalarMult, p256ScalarMult"},
-		Assumptions: []string{"exact-multiple model of the group"},
-		Bounds:      map[string]string{"quick": "every 32-byte scalar", "thorough": "same"},
-		Outside:     []string{"assembly bodies"},
+		Functions:   []string{"sm2/sm2ec.(*sm2Curve).IsOnCurve, pointFromAffine, pointToAffine, Add, ScalarMult, ScalarBaseMult, normalizeScalar, Inverse (real math/big code)", "internal/sm2ec.(*SM2P256Point).SetBytes (amd64 and purego Go code), p256OrdAdd, p256Add, p256LessThanP", "internal/sm2ec.boothW5, boothW6", "(*SM2P256Point).ScalarBaseMult, p256BaseMult", "(*SM2P256Point).ScalarMult, p256ScalarMult"},
+		Assumptions: []string{"drivers: exact-multiple model of the group (a point is the integer it is a multiple of; kernel contracts incl. their undefined results)", "decoders: field multiplication/squaring/Montgomery conversion uninterpreted", "wrapper: abstract group over coordinate encodings, curve membership opaque; (*big.Int).Mod with symbolic operands uninterpreted; coordinate length classes (xz, yz) in {(0,0),(32,0),(0,32),(1,0),(32,32)} leading zero bytes, results of group operations full length"},
+		Bounds:      map[string]string{"quick": "every 32-byte scalar (ScalarBaseMult driver); every byte string of 0/1/32/33/64/65/66 bytes (SetBytes); every pair of reduced operands (add lemmas); wrapper: every coordinate pair in five length classes, every scalar of 1/31/32/33/40 bytes", "thorough": "additionally the ScalarMult driver for every 32-byte scalar"},
+		Outside:     []string{"assembly bodies and fiat field arithmetic (that the kernels compute the group law)", "on-curve decisions, square roots, inversion modulo n", "CombinedMult, Double, Unmarshal/UnmarshalCompressed of the wrapper; purego scalar-multiplication drivers"},
 		Oracle:      "exact integer multiple modulo the group order",
 	})
 }
